@@ -151,6 +151,8 @@ type TLSClient struct {
 	StayOpen bool `json:"stayopen,omitempty"`
 	// Cert: the client presents a (self-signed, unverifiable) certificate
 	Cert bool `json:"cert,omitempty"`
+	// SSLBody: bytes carried inside the SSLRequest packet behind the request code
+	SSLBody []byte `json:"sslbody,omitempty"`
 }
 
 // SchedCase is the E2 part of a case.
@@ -164,6 +166,10 @@ type SchedCase struct {
 	// CloseFirst: one Close call runs to completion before Serve is called at
 	// all (`go srv.Serve(l)` overtaken by an early Close)
 	CloseFirst bool `json:"close_first,omitempty"`
+	// AcceptErr: once every connection of the case has been accepted, the
+	// listener's next Accept fails with an error that is not net.ErrClosed (the
+	// listener broke: EMFILE, a timeout, a closed descriptor)
+	AcceptErr bool `json:"accept_err,omitempty"`
 	// Listeners > 1: Serve is called once per listener on the same Server
 	Listeners int `json:"listeners,omitempty"`
 }
